@@ -14,7 +14,7 @@
  *     max_bytes budget handed to every backend call (connection_write_chunkqueue passes 262144)
  *     sched     '-' or comma list consumed by successive write/writev/sendfile calls:
  *               <n> = the kernel accepts min(n, requested) bytes, A = EAGAIN, I = EINTR,
- *               P = EPIPE, R = ECONNRESET, V = EINVAL, X = EIO     (exhausted => EAGAIN)
+ *               P = EPIPE, R = ECONNRESET, N = ENOTCONN, V = EINVAL, X = EIO     (exhausted => EAGAIN)
  *     chunk     m<seed>.<len>.<off>          MEM_CHUNK, data pat(seed,0..len-1), c->offset = off
  *               f<seed>.<flen>.<off>.<end>   FILE_CHUNK (open descriptor) on a file with content
  *               F<seed>.<flen>.<off>.<end>   FILE_CHUNK (by name, opened lazily)
@@ -30,7 +30,8 @@
  *     method G|H|P|C, ver 0|1 (HTTP/1.0|1.1), fin = r->resp_body_finished, ka = r->keep_alive,
  *     flags: 1 handler_module set, 2 error_intercept, 4 request_count > max_keep_alive_requests,
  *            8 max_keep_alive_idle == 0, 16 request body not completely read, 32 server.tag set,
- *            64 handler finishes the streamed body normally (http_chunk_close + resp_body_finished)
+ *            64 handler finishes the streamed body normally (http_chunk_close + resp_body_finished),
+ *            128 error_handler_saved_status = 65535 (error handler succeeded), 256 error_handler_saved_status = 404
  *     hdrs  '-' or comma list  s:<hexname>:<hexvalue> (http_header_response_set) |
  *                              i:<hexname>:<hexvalue> (http_header_response_insert)
  *     qbody hex of the bytes in r->write_queue; pieces are appended afterwards with
@@ -47,6 +48,10 @@
  *                       d http_chunk_append_file_fd (whole file), D http_chunk_append_file_fd_range(off,len),
  *                       r http_chunk_append_file_ref (whole file), R http_chunk_append_file_ref_range(off,len)
  *                       -> <rc> <hex of everything queued>   (small files are read into memory when chunked)
+ *  cshort <api> <seed> <flen> <claimed>
+ *                       chunked response, file of <claimed> bytes that shrinks to <flen> bytes after it was stat()ed / sized:
+ *                       d http_chunk_append_file_fd(claimed), r http_chunk_append_file_ref (stat cache entry taken before
+ *                       the truncation)  -> <rc> <hex queued>   (claimed <= 32768: the read-into-memory path, short read)
  *  clen <n>             chunk framing of http_chunk_append_file_fd_range(): <hex size line><file><hex CRLF>
  */
 #include "first.h"
@@ -106,6 +111,7 @@ static int ws_errno(int k) {
       case 'I': return EINTR;
       case 'P': return EPIPE;
       case 'R': return ECONNRESET;
+      case 'N': return ENOTCONN;
       case 'V': return EINVAL;
       default:  return EIO;
     }
@@ -319,7 +325,7 @@ static void op_prep(void) {
     r->conf.server_tag = (flags & 32) ? &server_tag : NULL;
     r->conf.range_requests = 0;
     r->conf.errorfile_prefix = NULL;
-    r->error_handler_saved_status = 0;
+    r->error_handler_saved_status = (flags & 128) ? 65535 : (flags & 256) ? 404 : 0;
     r->resp_send_chunked = 0;
     r->resp_decode_chunked = 0;
     r->resp_header_len = 0;
@@ -452,6 +458,41 @@ static void op_cfile(void) {
     chunkqueue_reset(&r->write_queue);
 }
 
+static void op_cshort(void) {
+    if (ltv_ntok != 5) { puts("bad-op"); return; }
+    request_st * const r = &con.request;
+    const int api = ltv_tok[1][0];
+    const unsigned long seed = strtoul(ltv_tok[2], NULL, 10), flen = strtoul(ltv_tok[3], NULL, 10),
+                        claimed = strtoul(ltv_tok[4], NULL, 10);
+    if (claimed > 32768 || flen > claimed) { puts("bad-op"); return; }
+    char path[512];
+    snprintf(path, sizeof(path), "%s/short_%lu_%lu", root, seed, claimed);
+    { FILE *f = fopen(path, "wb"); if (!f) { puts("bad-op"); return; }
+      for (unsigned long i = 0; i < claimed; ++i) fputc(pat(seed, i), f);
+      fclose(f); }
+    buffer fn; memset(&fn, 0, sizeof(fn));
+    buffer_copy_string(&fn, path);
+    chunkqueue_reset(&r->write_queue);
+    r->resp_send_chunked = 1;
+    int rc;
+    if (api == 'r') {
+        stat_cache_entry * const sce = stat_cache_get_entry_open(&fn, 1);   /* size as stat()ed: <claimed> */
+        if (NULL == sce || (unsigned long)sce->st.st_size != claimed) { puts("no-sce"); free(fn.ptr); return; }
+        if (0 != truncate(path, (off_t)flen)) { puts("bad-op"); free(fn.ptr); return; }
+        rc = http_chunk_append_file_ref(r, sce);
+    }
+    else {
+        if (0 != truncate(path, (off_t)flen)) { puts("bad-op"); free(fn.ptr); return; }
+        rc = http_chunk_append_file_fd(r, &fn, open(path, O_RDONLY), (off_t)claimed);
+    }
+    printf("%d ", rc);
+    cq_dump_all(&r->write_queue);
+    fputc('\n', stdout);
+    free(fn.ptr);
+    r->resp_send_chunked = 0;
+    chunkqueue_reset(&r->write_queue);
+}
+
 static void op_clen(void) {
     if (ltv_ntok != 2) { puts("bad-op"); return; }
     request_st * const r = &con.request;
@@ -507,6 +548,7 @@ int main(void) {
         else if (0 == strcmp(op, "clen")) op_clen();
         else if (0 == strcmp(op, "cfile")) op_cfile();
         else if (0 == strcmp(op, "s1xx")) op_s1xx();
+        else if (0 == strcmp(op, "cshort")) op_cshort();
         else puts("bad-op");
         fflush(stdout);
     }
